@@ -302,7 +302,7 @@ impl Prop for C14 {
     const ID: &'static str = "C14";
     const PART: &'static str = "goodness-of-fit";
     const MAX_SHRINK_ITERS: u32 = 8;
-    const RULE: &'static str = "proptest-generated bound settings (boxes of 1-3 dims incl. 1e-3 and 1e4 scales, SO2 intervals, SO3 full and cones of radius [0.3, pi), compounds, SE2/SE3) x sampler seeds; N = 2e5 draws per setting (quick) / 1e6 (thorough). Per setting: Kolmogorov-Smirnov of every marginal against its exact CDF (coordinate, angle, rotation angle (theta - sin theta)/(tmax - sin tmax) relative to the cone centre, axis z-component, axis azimuth), sign symmetry of the quaternion, chi-square on an 8x8 grid for every pair of marginals (independence); 12 % of the settings with an SO3 part use a narrow cone (0.12-0.3 rad) with N = 2e4. Each test at alpha = 1e-9 and a failure must repeat on a second independent seed. One case = one setting; counters give the number of statistical tests and draws. Cannot see biases below about 1%. Non-trivial = setting with non-default bounds.";
+    const RULE: &'static str = "proptest-generated bound settings (boxes of 1-9 dims, 9-20 dims for a third of them, incl. 1e-3 and 1e4 scales, SO2 intervals, SO3 full and cones of radius [0.3, pi), compounds, SE2/SE3) x sampler seeds; N = 2e5 draws per setting (quick) / 1e6 (thorough). Per setting: Kolmogorov-Smirnov of every marginal against its exact CDF (coordinate, angle, rotation angle (theta - sin theta)/(tmax - sin tmax) relative to the cone centre, axis z-component, axis azimuth), sign symmetry of the quaternion, chi-square on an 8x8 grid for every pair of marginals (independence); 12 % of the settings with an SO3 part use a narrow cone (0.12-0.3 rad) with N = 2e4. Each test at alpha = 1e-9 and a failure must repeat on a second independent seed. One case = one setting; counters give the number of statistical tests and draws. Cannot see biases below about 1%. Non-trivial = setting with non-default bounds.";
     fn random_cases(tier: Tier) -> usize {
         tier.pick(96, 360)
     }
@@ -320,6 +320,15 @@ impl Prop for C14 {
                         _ => (0.0, 2.0 * PI),
                     });
                 }
+            }
+        }
+        // "for all dimensions": a third of the boxes (plain or as a compound's component) are
+        // wide, 9-20 coordinates, so that every pair of coordinates any distance apart is tested
+        let p_wide = if kind == KindTag::RV { 0.4 } else { 0.15 };
+        if matches!(kind, KindTag::RV | KindTag::CS) && ch.prob(p_wide) {
+            if let Some(i) = space.comps.iter().position(|c| matches!(c, Comp::RV { .. })) {
+                let dim = 9 + ch.below(12);
+                space.comps[i] = gen_rv_comp(ch, dim, BoundsMode::Bounded);
             }
         }
         // keep rejection sampling affordable: cones of radius >= 0.3 (generator default)
